@@ -3,6 +3,7 @@ import ast
 
 from ..alg import Rat
 from ..loader import shape_error, anchor_error
+from ..report import weighed
 from ..sx import Walker, State
 from ..effects import Effects
 from ..util import body_nodocstring, names_stored, unparse
@@ -498,8 +499,49 @@ def rule_G(ctx):
     ctx.extra['C16.G cases'] = n_cases
 
 
+def rule_D(ctx):
+    """C16.D distance_to_segment by interpretation, whatever way it is written: the distance from the point to the closed segment, on
+    segments of twelve directions (axis-parallel ones included) at three magnitudes, the foot before / on / between / on / beyond
+    the ends, and on zero-length segments (closed loops and repeated fixes give them): the distance to that point"""
+    import math
+    import itertools
+    from .. import absint, orders
+    f = ctx.prog.func(GEO + '.distance_to_segment')
+    fn = absint.funcs(ctx, GEO, {})
+    fn['sqrt'], fn['hypot'] = math.sqrt, math.hypot
+    run = orders.make_func(f.node, fn)
+    bad = None
+    n = 0
+    try:
+        for (ax, ay), (dx, dy) in itertools.product(((1.0, 2.0), (-3.0, 0.5), (652000.0, 6861000.0)),
+                                                    ((4, 0), (-4, 0), (0, 3), (0, -2.5), (4, 4), (-4, 4), (4, -4), (3, 1), (-2, 5), (1, -6), (8, 0.5), (0.01, 0.02), (0, 0))):
+            bx, by = ax + dx, ay + dy
+            L = math.hypot(bx - ax, by - ay)
+            ux, uy = ((bx - ax) / L, (by - ay) / L) if L else (1.0, 0.0)
+            for t, off in itertools.product((-0.5, 0.0, 0.25, 1.0, 1.5), (0.0, 1.5, -2.0)):
+                qx, qy = ax + t * (bx - ax) - off * uy, ay + t * (by - ay) + off * ux
+                if L == 0:
+                    qx, qy = ax + 3.0 * t - off, ay + 4.0 * t + off
+                tc = max(0.0, min(1.0, t)) if L else 0.0
+                want = math.hypot(qx - (ax + tc * (bx - ax)), qy - (ay + tc * (by - ay)))
+                n += 1
+                try:
+                    got = run(qx, qy, ax, ay, bx, by)
+                except (ZeroDivisionError, ValueError, TypeError, IndexError, orders.Raised) as ex:
+                    got = '%s: %s' % (type(ex).__name__, ex)
+                slack = 64 * math.ulp(max(1.0, abs(ax), abs(ay)))
+                if not isinstance(got, (int, float)) or isinstance(got, bool) or abs(got - want) > 1e-9 * max(1.0, want) + slack:
+                    bad = bad or {'segment': [ax, ay, bx, by], 'point': [qx, qy], 'returned': got, 'distance to the closed segment': want}
+    except orders.Unsupported as ex:
+        raise shape_error('distance_to_segment not interpretable: %s' % ex, f.loc())
+    ctx.check(bad is None, 'C16.D', f, 'distance_to_segment is the distance from the point to the closed segment, zero-length segments included (%d interpreted cases)' % n,
+              witness=bad, node=f.node, key='distance-to-segment')
+
+
+
 RULES = [
     ('C16.G', rule_G, 'quick'),
-    ('C16.Z', rule_Z, 'quick'),
+    ('C16.D', rule_D, 'quick'),
+    ('C16.Z', weighed('C16.Z', rule_Z, ('C16.D', 'C16.G')), 'quick'),
 ]
-MIN_OBLIGATIONS = 5
+MIN_OBLIGATIONS = 3
